@@ -274,7 +274,7 @@ Proof.
 Qed.
 
 Lemma xname_eqb_same : forall a b, xname_eqb a b = xname_eqb' a b.
-Proof. intros. unfold xname_eqb, xname_eqb'. rewrite opt_eqb_same. reflexivity. Qed.
+Proof. reflexivity. Qed.
 
 Lemma xname_eqb_sym : forall a b, xname_eqb a b = xname_eqb b a.
 Proof. intros. unfold xname_eqb. rewrite opt_eqb_sym, xstr_eqb_sym. reflexivity. Qed.
